@@ -11,6 +11,8 @@ From P7 Require HeaderGenPrims FolderGen.
 From P7 Require SubstreamsGen.
 From P7 Require StreamsGen.
 From P7 Require FilesGen.
+From P7 Require Crc32 Trace Enc SigGen.
+From P7gen Require ArchiveinfoSig.
 From P7gen Require ArchiveinfoRecords.
 Open Scope Z_scope.
 
@@ -296,3 +298,27 @@ Theorem C07_gen_FilesInfo_write_is_write_files : forall (self : ArchiveinfoRecor
   = write_files pos (map FilesGen.file_of (ArchiveinfoRecords.FilesInfo_files self)) (FilesGen.entry_flags (ArchiveinfoRecords.FilesInfo_files self)).
 Proof. exact FilesGen.gen_FilesInfo_write. Qed.
 Print Assumptions C07_gen_FilesInfo_write_is_write_files.
+
+(* ---- third wave (stage 4, part 2): SignatureHeader.calccrc / write / _write_skeleton as translated on this run.  write and
+   _write_skeleton start with file.seek(0, 0): the bytes below are what the file holds from offset 0.  A new archive
+   (SignatureHeader(): version 0.4) with nextheaderofs set, then calccrc(size, crc), then write gives Enc.sig_header (the layout
+   theorem of C20) = magic, version, Trace.sig_fields (Trace.start_crc ..) (the final writes of C09's sessions); the skeleton is
+   Trace.skeleton32.  Side conditions exactly: the asserts of write (all four), 20 <= fuel for the CRC loop. ---- *)
+Theorem C07_gen_SignatureHeader_calccrc_write_is_sig_header : forall ofs size hcrc fuel,
+  (20 <= fuel)%nat -> 0 <= ofs -> 0 < size -> 0 <= hcrc ->
+  (do o <- ArchiveinfoSig.SignatureHeader_calccrc SigGen.zcrc (SigGen.sig_new ofs) fuel size hcrc; ArchiveinfoSig.SignatureHeader_write o)
+  = Enc.sig_header ofs size hcrc.
+Proof. exact SigGen.gen_sig_calccrc_write. Qed.
+Print Assumptions C07_gen_SignatureHeader_calccrc_write_is_sig_header.
+
+Theorem C07_gen_SignatureHeader_calccrc_write_is_trace : forall ofs size hcrc fuel, (20 <= fuel)%nat ->
+  0 <= ofs < 2 ^ 64 -> 0 < size < 2 ^ 64 -> 0 <= hcrc < 2 ^ 32 ->
+  (do o <- ArchiveinfoSig.SignatureHeader_calccrc SigGen.zcrc (SigGen.sig_new ofs) fuel size hcrc; ArchiveinfoSig.SignatureHeader_write o)
+  = Ok (MAGIC ++ [0; 4] ++ Trace.sig_fields (Trace.start_crc ofs size hcrc) ofs size hcrc).
+Proof. exact SigGen.gen_sig_calccrc_write_trace. Qed.
+Print Assumptions C07_gen_SignatureHeader_calccrc_write_is_trace.
+
+Theorem C07_gen_SignatureHeader_write_skeleton_is_skeleton32 :
+  ArchiveinfoSig.SignatureHeader_write_skeleton ArchiveinfoSig.SignatureHeader_init = Ok Trace.skeleton32.
+Proof. exact (SigGen.gen_sig_write_skeleton ArchiveinfoSig.SignatureHeader_init eq_refl eq_refl). Qed.
+Print Assumptions C07_gen_SignatureHeader_write_skeleton_is_skeleton32.
